@@ -302,12 +302,14 @@ class extract_visitor(NodeVisitor):
 
     def visit_ClassDef(self, node):
         # type: (ast.ClassDef) -> None
+        # (an expression may open regions of its own - a comprehension, a
+        # walrus: go on in the region it ends in)
         cur = self.flow
-        self.visit_in_flow(node.decorator_list, cur)
-        self.visit_in_flow(node.bases, cur)
+        cur = self.visit_in_flow(node.decorator_list, cur)
+        cur = self.visit_in_flow(node.bases, cur)
         for kw in getattr(node, 'keywords', []):
-            self.visit_in_flow(kw.value, cur)
-        self.visit_in_flow(getattr(node, 'type_params', []), cur)
+            cur = self.visit_in_flow(kw.value, cur)
+        cur = self.visit_in_flow(getattr(node, 'type_params', []), cur)
         scope = ClassScope(cur.scope, node, top=self.top)
         cur.add_name(scope)  # type: ignore[arg-type]  # TODO
         self.visit_in_flow(node.body, scope.flow)
@@ -328,7 +330,7 @@ class extract_visitor(NodeVisitor):
         leaks = PY2 and type(node).__name__ == 'ListComp'
         # the outermost iterable is evaluated in the enclosing scope, the
         # rest in the scope of the comprehension
-        self.visit_in_flow(node.generators[0].iter, cur)
+        cur = self.visit_in_flow(node.generators[0].iter, cur)
         if leaks:
             p = cur
         else:
